@@ -39,10 +39,14 @@ class C:
 x: int = 0
 def t(a) -> tuple[int, str]: ...
 def gen2(a: int, b=0, *c, d: str = "", **e) -> Generator[int, str]: ...
+def t1(a) -> tuple[int]: ...
+def g3(a) -> Generator[tuple[int, str], tuple[int], tuple[int]]: ...
+def it1(a) -> Iterator[tuple[int]]: ...
 '''
 _MOD = visit("m", Path("m.py"), _SRC)
-PARENTS = [None, _MOD, _MOD["C"], _MOD["gen2"], _MOD["C.__init__"], _MOD["C.p"], _MOD["g"], _MOD["x"], _MOD["t"], _MOD["f"]]
-PARENT_NAMES = ["none", "module", "class", "function (annotated parameters, returns a 2-element Generator[...])", "__init__", "property", "generator-function", "attribute", "function -> tuple[int, str]", "function -> int"]
+PARENTS = [None, _MOD, _MOD["C"], _MOD["gen2"], _MOD["C.__init__"], _MOD["C.p"], _MOD["g"], _MOD["x"], _MOD["t"], _MOD["f"], _MOD["t1"], _MOD["g3"], _MOD["it1"]]
+PARENT_NAMES = ["none", "module", "class", "function (annotated parameters, returns a 2-element Generator[...])", "__init__", "property", "generator-function", "attribute", "function -> tuple[int, str]", "function -> int",
+                "function -> tuple[int]", "function -> Generator[tuple[int, str], tuple[int], tuple[int]]", "function -> Iterator[tuple[int]]"]
 
 
 class Fuel(Exception):
@@ -337,3 +341,54 @@ for _style, _fn in (("google", G.parse_google), ("numpy", NP.parse_numpy), ("sph
     for _cfg in LINE_CONFIGS[_style]:
         if _cfg is not None:
             _make_lines(_style, _fn, *_cfg)
+
+
+# ------------------------------------------------------------------------------------------ items family
+# A returns / yields / receives section with 1..3 items, each named or not, typed or not, under parents whose return annotation is a
+# tuple (or a Generator / Iterator of tuples) with FEWER or more elements than there are items: the signature fallback indexes the tuple.
+ITEM_HEADS = {"google": ["Returns:", "Yields:", "Receives:"], "numpy": ["Returns", "Yields", "Receives"]}
+ITEM_BODIES = {"google": ["{n}: d", "(int): d", "{n} (int): d", "d"], "numpy": ["{n} :", "int", "{n} : int", "{n}"]}
+ITEM_PARENTS = (8, 10, 11, 12, 3, 9)
+
+
+def _make_items(style, parser_fn):
+    @obligation(
+        pid="C12", name=f"{style}_items", timeout=tiered(240, 900), path_timeout=60.0,
+        shards=lambda: [(f"section={h!r},parent={PARENT_NAMES[p]}", None, [dict(head=hi, parent=p)]) for hi, h in enumerate(ITEM_HEADS[style]) for p in ITEM_PARENTS],
+        pre=lambda head, parent, n, b1, b2, b3, oa, ob: 1 <= n <= 3 and all(0 <= b <= 3 for b in (b1, b2, b3)) and (n >= 2 or b2 == 0) and (n >= 3 or b3 == 0) and (style == "google" or not (oa or ob)),
+        drives=[parser_fn] + ([G._read_returns_section, G._read_yields_section, G._read_receives_section, G._annotation_from_parent] if style == "google" else [NP._read_returns_section, NP._read_yields_section, NP._read_receives_section]),
+        bounds={"section": ITEM_HEADS[style], "items": "1..3, each one of " + str(ITEM_BODIES[style]) + " (names a, b, c)", "parents": [PARENT_NAMES[i] for i in ITEM_PARENTS],
+                "options": "returns_/receives_multiple_items and _named_value symbolic (google)"},
+        value_symbolic=["number of items", "form of every item (named / typed / both / bare)", "the two options that govern the section"], selectors=["section, parent (driver-bound)"],
+        stubs=STUBS + ["docstring.lines supplied pre-split"], must_cover=[f"{style}:items-parsed"],
+        grid=lambda seed: [dict(head=h, parent=p, n=n, b1=0, b2=0, b3=0, oa=(style == "google"), ob=(style == "google")) for h in (0, 1) for p in (8, 10) for n in (1, 2)],
+    )
+    def items(head: int, parent: int, n: int, b1: int, b2: int, b3: int, oa: bool, ob: bool) -> bool:
+        """A section whose items outnumber (or not) the elements of the tuple in the signature parses without raising."""
+        bodies = (b1, b2, b3)
+        lines = ["Summary.", "", ITEM_HEADS[style][head]]
+        if style == "numpy":
+            lines.append("-" * len(ITEM_HEADS[style][head]))
+        for j in range(n):
+            body = ITEM_BODIES[style][bodies[j]].format(n="abc"[j])
+            lines.append(("    " if style == "google" else "") + body)
+            if style == "numpy":
+                lines.append("    d")
+        par = PARENTS[parent]
+        snap = _snapshot(par)
+        value = "\n".join(lines)
+        d = FDoc(value, par, lines=lines)
+        if head == 2:
+            secs = _parse(style, d, False, True, True, True, False, oa, ob, True)
+        else:
+            secs = _parse(style, d, False, True, oa, ob, False, True, True, True)
+        if any(sec.kind.value in ("returns", "yields", "receives") for sec in secs):
+            cover(f"{style}:items-parsed")
+        return _well_formed(secs, d, value, par, snap)
+
+    items.__name__ = f"{style}_items"
+    return items
+
+
+_make_items("google", G.parse_google)
+_make_items("numpy", NP.parse_numpy)
